@@ -2,5 +2,4 @@ package main
 
 import "errors"
 
-func driveStream(w *writer) error { return errors.New("not built yet") }
 func driveLife(w *writer) error   { return errors.New("not built yet") }
